@@ -1,4 +1,5 @@
 import AranyaV.Proofs.BraidIndep
+import AranyaV.Proofs.BraidMech
 /-!
 # C03 — Braided fact state equals the reference braid
 
@@ -22,6 +23,23 @@ that reference model *is*, for every well-formed graph and legal head set:
   `braid_deterministic`  — the same for two graphs with the same members;
 * `reverse_topological`  — the removal sequence (reverse of the evaluation order) never removes a
                            command before one of its descendants in the region.
+
+Mechanism (`Model.BraidMech.implBraid`: strand heap popped by least key, `max_cut ≤ lca.max_cut`
+cut-off, convergence counts counted down by `should_continue`, same-segment shortcut, `lone` tested
+after the priors were pushed, merges not recorded), under `MechHyp` (≥ 2 heads; the cut point `C` is a
+common ancestor of the heads comparable with every command of the region — the DESIGN's
+`lca_dominates`, here a hypothesis; the cut-off only skips ancestors-or-self of `C`; two locations of
+one segment are ancestor related):
+* `implBraid_eq_ref`       — the mechanism returns `start :: order` of the reference braid and fails
+                             exactly when it fails;
+* `cutoff_irrelevant`      — the same result with the cut-off removed; `braid_above_cut` — the
+                             reference braid never makes anything at or below `C` available, start and
+                             order are strictly above `C`;
+* `sameSegment_irrelevant` — the same-segment shortcut never changes the result (it never fires).
+Not proved: that the recorded-LCA walk of `last_common_ancestor` returns such a `C`
+(`lca_dominates`), that the BFS of `convergence_map.rs` computes these counts under every spill
+interleaving (`count_exact`), and the storage refinement `state_layout_indep`; these are covered by
+the differential tie only.
 -/
 namespace AranyaV.Spec
 open AranyaV.Gen
@@ -186,3 +204,168 @@ example : keyLt (exC 4 [2] (.basic 0)) (exC 5 [3] (.basic 0)) = true ∧
     keyLt (exC 9 [] .finalize) (exC 1 [] .init) = true := by decide
 
 end AranyaV.Spec
+
+namespace AranyaV.Braid
+open AranyaV.Spec AranyaV.Gen
+
+/-- hypotheses on the cut point `C`, the cut-off predicate and the same-segment relation -/
+structure MechHyp (g : Graph) (hs : List Nat) (C : Nat) (below : Nat → Bool) (sameSeg : Nat → Nat → Bool) : Prop where
+  /-- a braid is only run for at least two heads -/
+  two : 2 ≤ hs.length
+  /-- `C` is a common ancestor of the heads … -/
+  common : ∀ h ∈ hs, Reach g C h
+  /-- … that is comparable with every command of the region (DESIGN `lca_dominates`) -/
+  dom : ∀ x ∈ ancSelfAll g hs, Reach g x C ∨ Reach g C x
+  /-- the cut-off only skips ancestors-or-self of `C` (`max_cut ≤ lca.max_cut` inside the region) -/
+  belowAnc : ∀ x ∈ ancSelfAll g hs, below x = true → Reach g x C
+  /-- two locations of one segment are ancestor-related -/
+  sameSegAnc : ∀ p o, sameSeg p o = true → Reach g p o
+
+
+/-- **`implBraid_eq_ref`.** The mechanism (strand heap, cut-off, convergence counts, same-segment
+shortcut, `lone`) returns the start of the reference braid followed by its evaluation order, and
+fails exactly when the reference braid fails. -/
+theorem implBraid_eq_ref {g : Graph} (hw : WF g) {hs : List Nat} (hh : Heads g hs) {C : Nat}
+    {below : Nat → Bool} {sameSeg : Nat → Nat → Bool} (hm : MechHyp g hs C below sameSeg) :
+    implBraid g hs below sameSeg = liftRes (refBraid g hs) := by
+  unfold implBraid refBraid
+  rw [pushHeads_eq_addAvail]
+  cases ha : addAvail g [] hs with
+  | error e => rfl
+  | ok a =>
+    simp only
+    have hR := region_ancSelfAll hw hh.sub
+    have hi := init_inv hw hh a ha
+    obtain ⟨ea, _⟩ := addAvail_ok _ _ _ ha
+    simp only [List.nil_append] at ea
+    subst ea
+    have hj : J g C { processed := [], avail := a, out := [] } := by
+      refine ⟨?_, by simp⟩
+      intro x hx
+      refine ⟨hm.common x hx, ?_⟩
+      intro e
+      subst e
+      -- two heads: another head is a proper descendant of x, against the antichain
+      have : ∃ y ∈ a, y ≠ x := exists_ne_of_not_single hh.nodup hh.ne
+        (by intro x' e; have := hm.two; rw [e] at this; simp at this) x
+      obtain ⟨y, hy, hyx⟩ := this
+      exact hh.anti.not_reach hw hx hy (Ne.symm hyx) (hm.common y hy)
+    have hns : ∀ x, a ≠ [x] := by
+      intro x e
+      have := hm.two
+      rw [e] at this; simp at this
+    exact implLoop_sim hw hR hm.dom hm.belowAnc hm.sameSegAnc g.length
+      { processed := [], avail := a, out := [] } _ hi hj rfl rfl
+      (initCounts_inv hw hR below) hns (by simp)
+
+
+/-- **`cutoff_irrelevant`.** Removing the cut-off does not change the result of the mechanism. -/
+theorem cutoff_irrelevant {g : Graph} (hw : WF g) {hs : List Nat} (hh : Heads g hs) {C : Nat}
+    {below : Nat → Bool} {sameSeg : Nat → Nat → Bool} (hm : MechHyp g hs C below sameSeg) :
+    implBraid g hs below sameSeg = implBraid g hs (fun _ => false) sameSeg := by
+  rw [implBraid_eq_ref hw hh hm]
+  exact (implBraid_eq_ref hw hh
+    { two := hm.two, common := hm.common, dom := hm.dom, belowAnc := fun _ _ h => (by cases h),
+      sameSegAnc := hm.sameSegAnc }).symm
+
+/-- **`sameSegment_irrelevant`.** The same-segment shortcut does not change the result. -/
+theorem sameSegment_irrelevant {g : Graph} (hw : WF g) {hs : List Nat} (hh : Heads g hs) {C : Nat}
+    {below : Nat → Bool} {sameSeg : Nat → Nat → Bool} (hm : MechHyp g hs C below sameSeg) :
+    implBraid g hs below sameSeg = implBraid g hs below (fun _ _ => false) := by
+  rw [implBraid_eq_ref hw hh hm]
+  exact (implBraid_eq_ref hw hh
+    { two := hm.two, common := hm.common, dom := hm.dom, belowAnc := hm.belowAnc,
+      sameSegAnc := fun _ _ h => (by cases h) }).symm
+
+/-- **`braid_above_cut`.** With a dominating common ancestor `C` the reference braid never reaches
+`C`: the start and every evaluated command are proper descendants of `C`. -/
+theorem braid_above_cut {g : Graph} (hw : WF g) {hs : List Nat} (hh : Heads g hs) {C : Nat}
+    (htwo : 2 ≤ hs.length) (hcommon : ∀ h ∈ hs, Reach g C h)
+    (hdom : ∀ x ∈ ancSelfAll g hs, Reach g x C ∨ Reach g C x)
+    {s : Nat} {o : List Nat} (h : refBraid g hs = .ok (s, o)) :
+    (anc g C s = true) ∧ ∀ u ∈ o, anc g C u = true := by
+  have hR := region_ancSelfAll hw hh.sub
+  unfold refBraid at h
+  cases ha : addAvail g [] hs with
+  | error e => rw [ha] at h; simp at h
+  | ok a =>
+    rw [ha] at h
+    simp only at h
+    have hi := init_inv hw hh a ha
+    obtain ⟨ea, _⟩ := addAvail_ok _ _ _ ha
+    simp only [List.nil_append] at ea
+    subst ea
+    have hj : J g C { processed := [], avail := a, out := [] } := by
+      refine ⟨?_, by simp⟩
+      intro x hx
+      refine ⟨hcommon x hx, ?_⟩
+      intro e
+      subst e
+      obtain ⟨y, hy, hyx⟩ := exists_ne_of_not_single hh.nodup hh.ne
+        (by intro x' e; rw [e] at htwo; simp at htwo) x
+      exact hh.anti.not_reach hw hx hy (Ne.symm hyx) (hcommon y hy)
+    obtain ⟨s', hi', hj', hA, hout⟩ := braidLoop_invariant hw hR (J g C)
+      (fun s c a hi hk hcg hcA h2 ha => J_step hw hR hdom s c a hi hk hcg hcA h2 ha) _ _ hi hj s o h
+    have habove : ∀ u, Above g C u → anc g C u = true :=
+      fun u hu => (anc_iff hw C u).mpr ⟨Ne.symm hu.2, hu.1⟩
+    refine ⟨habove s (hj'.1 s (by rw [hA]; simp)), ?_⟩
+    intro u hu
+    rw [← hout, hi'.outEq] at hu
+    exact habove u (hj'.2 u (List.mem_filter.mp hu).1)
+
+/-! ## non-vacuity of the mechanism theorems
+
+```
+  1 init — 2 (C) — 3 — 8 ─┐
+            │       └─ 9 ─┴─ 10 = merge(8,9)      heads {10, 7}
+            └─ 7
+```
+`3` has two region children above the cut (a convergence entry with count 2); `3`, `8` are in one
+segment. -/
+def exM : Graph :=
+  [exC 1 [] .init, exC 2 [1] (.basic 0), exC 3 [2] (.basic 0), exC 8 [3] (.basic 1), exC 9 [3] (.basic 0),
+   exC 10 [8, 9] .merge, exC 7 [2] (.basic 2)]
+
+theorem exM_wf : WF exM := wfB_sound (by decide)
+theorem exM_heads : Heads exM [10, 7] := ⟨by decide, by decide, by decide, by unfold Antichain; decide⟩
+
+def exBelow (x : Nat) : Bool := x == 1 || x == 2
+def exSame (p o : Nat) : Bool := p == 3 && o == 8
+
+theorem reach_of_mem {g : Graph} (hw : WF g) {x y : Nat} (h : x ∈ ancSelfAll g [y]) : Reach g x y := by
+  rw [mem_ancSelfAll hw] at h
+  obtain ⟨b, hb, hr⟩ := h
+  simp at hb; subst hb; exact hr
+
+theorem exM_hyp : MechHyp exM [10, 7] 2 exBelow exSame where
+  two := by decide
+  common := by
+    intro h hh
+    have : 2 ∈ ancSelfAll exM [h] := by revert h; decide
+    exact reach_of_mem exM_wf this
+  dom := by
+    intro x hx
+    have : x ∈ ancSelfAll exM [2] ∨ 2 ∈ ancSelfAll exM [x] := by revert x; decide
+    rcases this with h | h
+    · exact Or.inl (reach_of_mem exM_wf h)
+    · exact Or.inr (reach_of_mem exM_wf h)
+  belowAnc := by
+    intro x hx hb
+    have : x ∈ ancSelfAll exM [2] := by revert x; decide
+    exact reach_of_mem exM_wf this
+  sameSegAnc := by
+    intro p o h
+    simp only [exSame, Bool.and_eq_true, beq_iff_eq] at h
+    obtain ⟨rfl, rfl⟩ := h
+    exact reach_of_mem exM_wf (by decide)
+
+/-- the convergence map really holds an entry here, and both sides compute start 7, order 3 8 9 …
+(the mechanism returns the start first) -/
+example : initCounts exM (ancSelfAll exM [10, 7]) exBelow 3 = some 2 ∧
+    implBraid exM [10, 7] exBelow exSame = .ok [7, 3, 8, 9] ∧ refBraid exM [10, 7] = .ok (7, [3, 8, 9]) := by
+  refine ⟨by decide, by rfl, by rfl⟩
+
+example : implBraid exM [10, 7] exBelow exSame = liftRes (refBraid exM [10, 7]) :=
+  implBraid_eq_ref exM_wf exM_heads exM_hyp
+
+end AranyaV.Braid
